@@ -169,6 +169,11 @@ LeSum(x, lo, hi) == IF lo >= hi THEN 0 ELSE Bit(x, lo) + 2 * LeSum(x, lo + 1, hi
 RangeOk(x, n) == LeSum(x, 0, n) = x
 \* fri_verify_proof_of_work: native `leading_zeros >= b`, circuit `assert_leading_zeros` = range check to W - b bits
 ASSUME \A x \in Words : \A b \in 0..W : (LeadingZeros(x, W) >= b) <=> RangeOk(x, W - b)
+\* the boundary: a response with exactly b - 1 leading zeros fails the check of width W - b and passes the one of
+\* width W - b + 1 (what an off-by-one circuit would enforce); exactly b leading zeros passes
+ASSUME \A x \in Words : \A b \in 1..W :
+          /\ LeadingZeros(x, W) = b - 1 => ~RangeOk(x, W - b) /\ RangeOk(x, W - b + 1)
+          /\ LeadingZeros(x, W) = b => RangeOk(x, W - b)
 \* query index: native `x % 2^n`; circuit: the n low bits of the W-bit decomposition
 ASSUME \A x \in Words : \A n \in 1..W : x % Pow2(n) = LeSum(x, 0, n)
 \* cap index: native index after walking the path = x_index >> (n - h); circuit le_sum(bits[n - h .. n])
@@ -257,16 +262,22 @@ NativeChecks(db) == VanChecks(0) \o <<PowChk>> \o AllRounds(0, Cardinality(Layer
 \* circuit: the same groups of equality constraints.  In the variable-degree mode the circuit holds NL
 \* conditional layers; layer l is switched on by step_active (Part 3, V1: exactly the proof's own layers),
 \* an inactive layer constrains nothing and passes old_eval through, so the final check reads the last ACTIVE layer.
-CircuitChecks(db) == SelectSeq(VanChecks(0) \o <<PowChk>> \o AllRounds(0, Cardinality(Layers(db))),
+\* mutant: the in-circuit range check enforces one leading zero too few
+CircuitPow == IF Mutant = "pow_one_bit_short" THEN Chk("PowLoose", {}, {}, {"pow_response"}) ELSE PowChk
+CircuitChecks(db) == SelectSeq(VanChecks(0) \o <<CircuitPow>> \o AllRounds(0, Cardinality(Layers(db))),
                                LAMBDA k : k.id \notin Disabled)
 
 \* ---- adversary classes ----------------------------------------------------------------
 StaticComps ==
   {S("pis"), S("final_poly"), S("pow_witness")} \cup Openings
   \cup (IF IsPlonk THEN {S("wires_cap"), S("zs_cap"), S("quot_cap")} ELSE {S("trace_cap"), S("quot_cap")})
-  \cup {C("commit_cap", 0, l) : l \in Ls} \cup {C("init_leaf", 0, o) : o \in Os} \cup {C("init_path", 0, o) : o \in Os}
-  \cup {C("step_eval", 1, l) : l \in Ls} \cup {C("step_path", 1, l) : l \in Ls}
-CompName(c) == IF c.k \in {"init_leaf", "init_path", "commit_cap", "step_eval", "step_path"} THEN c.k \o ":" \o Digit(c.i) ELSE c.k
+  \cup {C("commit_cap", 0, l) : l \in Ls} \cup {C("init_leaf", 0, o) : o \in Os}
+  \* one Merkle sibling: per oracle / per layer, in the first and in the last query round
+  \cup {C("init_path", r, o) : r \in {0, Q - 1}, o \in Os}
+  \cup {C("step_eval", 1, l) : l \in Ls} \cup {C("step_path", r, l) : r \in {0, Q - 1}, l \in Ls}
+CompName(c) == IF c.k \in {"init_leaf", "init_path", "commit_cap", "step_eval", "step_path"}
+               THEN c.k \o ":" \o Digit(c.i) \o (IF c.k \in {"init_path", "step_path"} /\ c.r = Q - 1 THEN "@last" ELSE "")
+               ELSE c.k
 AllIds(pre) == {pre \o Digit(i) : i \in 0..3}
 VanIds == {"Vanishing" \o Digit(i) : i \in Is}
 StaticClasses == {[name |-> CompName(c), kind |-> "static", touched |-> c, partial |-> TRUE, breaks |-> {}, maybe |-> {}] : c \in StaticComps}
@@ -284,7 +295,10 @@ AfterLayer(l, n) == IF l + 1 < n THEN "Consistency" \o Digit(l + 1) ELSE "Final"
 AdaptiveClasses(n) ==
   { Ad("none", {}, {}),
     \* Knobs.pow_witness: a witness that does not satisfy the grinding condition, absorbed as sent
-    Ad("bad_pow", {"Pow"}, {}),
+    Ad("bad_pow", {"Pow", "PowLoose"}, {}),
+    \* boundary of the grinding condition: a witness whose response has EXACTLY pow_bits - 1 leading zeros (one bit
+    \* short: rejected, and only a check of the full width notices), and one with exactly pow_bits (accepted)
+    Ad("pow_short1", {"Pow"}, {}), Ad("pow_exact", {}, {}),
     \* Knobs.fri_final_poly_delta: coefficient changed before it is absorbed
     Ad("final_delta", {"Final"}, {}) }
   \cup {Ad("layer_delta:" \o Digit(l), {"Consistency" \o Digit(l), AfterLayer(l, n)}, {}) : l \in 0..(n - 1)}
@@ -367,7 +381,7 @@ Adequate == (pc = 1 /\ adv.name = "none") =>
             \A id \in {T.nc[i].id : i \in 1..Len(T.nc)} :
               \E a \in Classes(db) : Exists(a, db) /\ id \in YesIds(a) /\ YesIds(a) \subseteq Group(id) /\ Cardinality(YesIds(a)) <= 2
 \* every class except the honest proof is rejected or position dependent
-OnlyHonestAccepted == Done /\ Disabled = {} => (nacc = "accept" <=> (adv.name = "none" \/ (adv.name = "unpadded" /\ db = VC.maxdb)))
+OnlyHonestAccepted == Done /\ Disabled = {} => (nacc = "accept" <=> (adv.name \in {"none", "pow_exact"} \/ (adv.name = "unpadded" /\ db = VC.maxdb)))
 
 \* Part 3: for every configuration the prover accepts and every proof degree that can be assigned at all, the
 \* circuit switches on exactly the proof's own layers, compares each Merkle path at the proof's own length and
